@@ -373,8 +373,8 @@ func (fv *FuncVerifier) checkFrameFiltered(st *State, label string, pos token.Po
 		if strings.HasPrefix(name, "LK_") && !fv.locksInFrame() {
 			continue
 		}
-		if strings.HasPrefix(name, "LKE_") {
-			continue // ghost critical-section counters
+		if strings.HasPrefix(name, "LKE_") || name == "GH_mepoch" {
+			continue // ghost critical-section counters; interference epoch of the map model
 		}
 		if only != nil && !only(name) {
 			continue
